@@ -107,8 +107,18 @@ def generate(rng, tier):
         else:
             s2, t2, kind = edit(rng, stmts, term, kinds)
             Pp = assemble(s2, t2)
-        runs = [dict(kind="record", enabled=True, prm=PRM, op=P, save_fails=False),
-                dict(kind="play", target=0, pf={"kind": "op", "op": Pp}, enabled=rng.random() < 0.5)]
+        runs = [dict(kind="record", enabled=True, prm=PRM, op=P, save_fails=False)]
+        if rng.random() < 0.3:
+            # first a replay of code that makes an ADDED output call whose result must not be invented: it aborts with
+            # RecordingKeyError after some outputs were already captured; the next replay must be unaffected
+            s3 = [rd.clean(x) for x in stmts]
+            a = rng.choice(list(kinds))
+            extra = out_stmt(rng, a, *kinds[a])
+            extra["cfg"]["fail"] = True
+            s3.append(extra)
+            runs.append(dict(kind="play", target=0, pf={"kind": "op", "op": assemble(s3, rd.clean(term))}, enabled=False,
+                             aborting=True))
+        runs.append(dict(kind="play", target=0, pf={"kind": "op", "op": Pp}, enabled=rng.random() < 0.5))
         cases.append(dict(draws=[], runs=runs, cassette="memory", edit=kind, unshare=True))
     return cases
 
@@ -143,27 +153,39 @@ def direct(case, obs):
     if "driver_exception" in obs:
         return [("driver", obs["driver_exception"] + obs.get("trace", "")[-400:])]
     fails = []
-    rec_run, play_run_ = case["runs"][0], case["runs"][1]
-    pob = obs["runs"][1]
-    if pob["outcome"] != {"o": "val", "v": {"t": "none"}}:
-        return [("replay-failed", "play() ended with %s" % pob["outcome"])]
+    if len(case["runs"]) < 2 or case["runs"][0]["kind"] != "record":
+        return fails
+    rec_run = case["runs"][0]
     exp_rec = expected_outputs(rec_run["op"], None)
-    exp_play = expected_outputs(play_run_["pf"]["op"], None)
-    got_rec = dict(canon_rec(pob["recouts"]))
-    got_play = dict(canon_rec(pob["pbouts"]))
-    if len(pob["pbouts"]) != len(got_play) or len(pob["recouts"]) != len(got_rec):
-        fails.append(("duplicate-entries", "an output key occurs twice"))
-    if got_rec != exp_rec:
-        diff = sorted(k for k in set(got_rec) | set(exp_rec) if got_rec.get(k) != exp_rec.get(k))
-        fails.append(("recorded-outputs-wrong", "recorded outputs differ from what the recorded program sent at %s" % diff[:4]))
-    if got_play != exp_play:
-        diff = sorted(k for k in set(got_play) | set(exp_play) if got_play.get(k) != exp_play.get(k))
-        fails.append(("playback-outputs-wrong", "playback outputs differ from what the replayed program sent at %s" % diff[:4]))
-    want_diff = sorted(k for k in set(exp_rec) | set(exp_play) if exp_rec.get(k) != exp_play.get(k))
-    got_diff = sorted(k for k in set(got_rec) | set(got_play) if got_rec.get(k) != got_play.get(k))
-    if want_diff != got_diff:
-        fails.append(("diff-not-localised", "edit '%s': recorded vs playback outputs differ at %s, the programs differ at %s" %
-                      (case.get("edit"), got_diff[:5], want_diff[:5])))
+    for i, (run, pob) in enumerate(zip(case["runs"], obs["runs"])):
+        if run["kind"] != "play":
+            continue
+        if run.get("aborting"):
+            if pob["outcome"] != {"o": "exn", "e": "KeyMissing"}:
+                fails.append(("replay-should-abort", "run %d: a replay that asks for a result that was never recorded ended "
+                              "with %s" % (i, pob["outcome"])))
+            continue
+        if pob["outcome"] != {"o": "val", "v": {"t": "none"}}:
+            fails.append(("replay-failed", "run %d: play() ended with %s" % (i, pob["outcome"])))
+            continue
+        exp_play = expected_outputs(run["pf"]["op"], None)
+        got_rec = dict(canon_rec(pob["recouts"]))
+        got_play = dict(canon_rec(pob["pbouts"]))
+        if len(pob["pbouts"]) != len(got_play) or len(pob["recouts"]) != len(got_rec):
+            fails.append(("duplicate-entries", "run %d: an output key occurs twice" % i))
+        if got_rec != exp_rec:
+            diff = sorted(k for k in set(got_rec) | set(exp_rec) if got_rec.get(k) != exp_rec.get(k))
+            fails.append(("recorded-outputs-wrong", "run %d: recorded outputs differ from what the recorded program sent at %s" %
+                          (i, diff[:4])))
+        if got_play != exp_play:
+            diff = sorted(k for k in set(got_play) | set(exp_play) if got_play.get(k) != exp_play.get(k))
+            fails.append(("playback-outputs-wrong", "run %d: playback outputs differ from what the replayed program sent at %s" %
+                          (i, diff[:4])))
+        want_diff = sorted(k for k in set(exp_rec) | set(exp_play) if exp_rec.get(k) != exp_play.get(k))
+        got_diff = sorted(k for k in set(got_rec) | set(got_play) if got_rec.get(k) != got_play.get(k))
+        if want_diff != got_diff:
+            fails.append(("diff-not-localised", "run %d, edit '%s': recorded vs playback outputs differ at %s, the programs differ at %s" %
+                          (i, case.get("edit"), got_diff[:5], want_diff[:5])))
     return fails
 
 
